@@ -162,22 +162,29 @@ def run(ctx, P, mode, n_grammars, n_strings, seed, gen_kwargs=None, all_offsets=
         for k, v in G.grammar_stats(gr).items():
             opmix[k] += v
     evald = precomputed if precomputed is not None else eval_py(P, mode, gcases, text_route=text_route)
-    blocks = [glines + [line for _, _, line, _ in exp] for glines, exp in evald]
-    expected = [exp for _, exp in evald]
-    outs = lib.run_driver_parallel(blocks)
     disagreements = []
     slow = []
     nontrivial = set()
-    for gi, (exp, out) in enumerate(zip(expected, outs)):
-        assert out[0] == "grammar-ok", (out[0], blocks[gi][:3])
-        for (s, i, line, py), ln in zip(exp, out[1:]):
+    # cases on which the real code did not answer within the CPU budget are a matter for C12 (work bound, known finding
+    # F14) and are not comparable here: they are not sent to the model either (it mirrors the algorithm and would need
+    # as long)
+    evald2 = []
+    for gi, (glines, exp) in enumerate(evald):
+        keep = []
+        for (s, i, line, py) in exp:
             if py.startswith("slow:"):
-                # the real code did not answer within the CPU budget: a matter for C12 (work bound), see
-                # known finding F14; not comparable here
                 stats["slow_cases_skipped"] += 1
                 if py == "slow:no-result-within-budget" and len(slow) < 20:
                     slow.append({"grammar": grammars[gi], "source": [ord(c) for c in s], "source_repr": repr(s), "offset": i, "query": line})
-                continue
+            else:
+                keep.append((s, i, line, py))
+        evald2.append((glines, keep))
+    blocks = [glines + [line for _, _, line, _ in exp] for glines, exp in evald2]
+    expected = [exp for _, exp in evald2]
+    outs = lib.run_driver_parallel(blocks)
+    for gi, (exp, out) in enumerate(zip(expected, outs)):
+        assert out[0] == "grammar-ok", (out[0], blocks[gi][:3])
+        for (s, i, line, py), ln in zip(exp, out[1:]):
             stats["cases"] += 1
             stats["py_" + outcome_class(py)] += 1
             e = lib.ends_of(py) if mode != "parse" else None
